@@ -1,6 +1,7 @@
 SPECIFICATION Spec
 CONSTANTS
   HTCase = 3
+  HT <- HTOf
   Inputs = {1, 2}
   Spends = {}
   HasShielded = FALSE
